@@ -9,7 +9,7 @@ KS = [int(x) for x in (sys.argv[2] if len(sys.argv) > 2 else '1,2,3').split(',')
 ENV = dict(os.environ, GOFLAGS='-mod=mod', GOPROXY='off', GOSUMDB='off', GOTOOLCHAIN='local')
 ENV.pop('GOWORK', None)
 def sh(cmd, cwd, timeout=900):
-    p = subprocess.run(cmd, shell=True, cwd=cwd, env=ENV, stdout=subprocess.PIPE, stderr=subprocess.STDOUT, text=True, timeout=timeout)
+    p = subprocess.run(cmd, shell=True, cwd=cwd, env=ENV, stdout=subprocess.PIPE, stderr=subprocess.STDOUT, text=True, errors="replace", timeout=timeout)
     return p.returncode, p.stdout
 def suite(wt):
     for d in ['.', 'exp', 'zapgrpc/internal/test']:
